@@ -112,5 +112,27 @@ def run():
         if r:
             c.nontriv(l[:600])
             c.sample({'text': repr(full[:consumed][:200]), 'accessors': a[:160]}, limit=3)
+    # "accepted when the output buffer is large enough": every accepted valid text is parsed again into a buffer of EXACTLY the
+    # size of its binary form (and 1-3 bytes more): same value, same consumed length
+    fit_lines, fit_meta = [], []
+    for (txt, tr, expect, v), l, a in zip(cases, lines, w):
+        if expect == 'accept' and a.startswith('ok '):
+            n = int(a.split(' ')[2])
+            for b in (n, n + rng.choice([1, 2, 3])):
+                fit_lines.append('EVJ %s %d %d' % (hx(txt + tr), b, rng.randrange(1, 1 << 40)))
+                fit_meta.append((a, n, b))
+    wf, mf = c.run_both(fit_lines)
+    c.evaluations += len(fit_lines)
+    for l, (a0, n, b), a, bm in zip(fit_lines, fit_meta, wf, mf):
+        short = [' '.join(l.split(' ')[:3])[:3000] + ' 1']
+        if a.split(' ')[0] in ('panic', 'ABORT', 'HANG', 'GUARD'):
+            c.violation('oracle', 'from_json into an exactly fitting buffer did not return: %s' % a[:60], short)
+            continue
+        if a.split(' ')[:3] != bm.split(' ')[:3]:
+            c.violation('corr', 'from_json, buffer of %d bytes for a value of %d: impl %s model %s' % (b, n, a[:40], bm[:40]), short, found=False)
+        if not a.startswith('ok ') or a.split(' ')[1:3] != a0.split(' ')[1:3] or a.split(' ')[3][:2 * n] != a0.split(' ')[3][:2 * n]:
+            c.violation('oracle', 'a valid event text whose binary form is %d bytes was not parsed (or parsed differently) into a buffer of %d bytes: %s' % (n, b, a[:40]), short)
+        else:
+            c.count('exact_fit_ok')
     sweeps.cpt_sweep(c, 0, 0x110000 if not Q else 0x110000)
     c.finish()
